@@ -22,3 +22,15 @@ claim('C08',
       "Bounded symbolic model checking of the real marker reconciliation chain (validate_marker_lookup -> create_marker_cache_from_specified_markers -> write_query_markers_to_h5 -> reconcile_taxonomy_and_markers / serialize_markers / assemble_query_data) against a reference model written from the statement, for every tree, marker table, query gene subset/order and min_markers inside the bounds; query/reference values are symbolic and compared by term identity (pairing by name).",
       "h5py model; inputs on which the statement allows either outcome (single-child root without usable markers, genes unknown to both files) are accepted either way and counted separately; min_markers=0 outside",
       "DESIGN.md §4 C08")
+claim('C01',
+      "Bounded symbolic model checking of (a) the real per-level assignment loop on every child->parent map of the listed tree sizes with arbitrary vote tallies (one record per cell, node of its level, one root-to-leaf path; flatten / drop-level + backfill), and (b) the real mapping dispatch (runner -> dispatch loop -> workers -> gather -> re_order_blob) with symbolic chunk size / worker count, a unique symbolic tag per row and the multiprocessing model: record i carries cell id i and the data of row i.",
+      "vote tallies arbitrary (assemble_query_data / tally_votes replaced by harness oracles; their real code is checked in C02/C08); multiprocessing, h5py, obs reader, per-chunk JSON files replaced by models; marker-table reconciliation for accepted trees is in C08; argschema CLI and GPU path outside",
+      "DESIGN.md §4 C01")
+claim('C04',
+      "Bounded symbolic model checking of the real mapping dispatch under a symbolic scheduler: every completion order of up to 3 (thorough 4) concurrently running workers, both gather modes, symbolic chunk size and worker count; the result is proved to be a function of inputs, seed draws and the documented chunking only. Hash-seed independence: the level loop is re-run with every iteration order of every set it builds.",
+      "claimed for the mapping stage dispatch and the set-iterating mapping kernels only; worker bodies are atomic w.r.t. each other (granularity at which the real code synchronises); OS scheduling, BLAS threads and the other stages' dispatch loops are outside (their worker-count independence is covered in C09/C13 where claimed)",
+      "DESIGN.md §4 C04")
+claim('C14',
+      "Bounded symbolic model checking with a fault model: winnow_process_list/dict for every combination of unfinished / finished workers with symbolic exit codes; the real mapping dispatch with one abnormal worker termination chosen symbolically (which worker, failure mode before/killed/after/raise-at-step, every completion order): the call raises iff some worker terminated abnormally.",
+      "mapping stage only in the quick tier; abnormal termination is modelled at the exitcode interface of multiprocessing.Process (what the code inspects); a worker that exits 0 without doing its work is outside",
+      "DESIGN.md §4 C14")
